@@ -28,10 +28,14 @@ pub async fn on_did_open_text_document(
         }
     };
 
-    {
+    // the workspace matcher may have changed (workspace reload) since it was consulted above: decide
+    // again under the same write lock that records the text, so a reload either sees this text in its
+    // open-files snapshot or this handler sees the reloaded matcher
+    let should_process = {
         let mut workspace = context.workspace_manager().write().await;
         workspace.sync_open_file(uri.clone(), text.clone());
-    }
+        should_process || workspace.is_workspace_file(&uri)
+    };
 
     if !should_process {
         return None;
@@ -109,10 +113,14 @@ pub async fn on_did_change_text_document(
         }
     };
 
-    {
+    // the workspace matcher may have changed (workspace reload) since it was consulted above: decide
+    // again under the same write lock that records the text, so a reload either sees this text in its
+    // open-files snapshot or this handler sees the reloaded matcher
+    let should_process = {
         let mut workspace = context.workspace_manager().write().await;
         workspace.sync_open_file(uri.clone(), text.clone());
-    }
+        should_process || workspace.is_workspace_file(&uri)
+    };
 
     if !should_process {
         return None;
